@@ -37,6 +37,9 @@ use failure::Error;
 /// Natively the macro is a plain `vec![]`, so the replay runs on ordinary heap vectors.
 #[cfg(kani)]
 macro_rules! sv {
+    (let $name:ident : $t:ty = []) => {
+        let $name: Vec<$t> = Vec::new();
+    };
     (let $name:ident : $t:ty = [$($e:expr),* $(,)?]) => {
         let mut __arr: core::mem::ManuallyDrop<[$t; sv!(@count $($e),*)]> = core::mem::ManuallyDrop::new([$($e),*]);
         let $name: Vec<$t> = unsafe { Vec::from_raw_parts(__arr.as_mut_ptr(), sv!(@count $($e),*), 0) };
@@ -139,14 +142,13 @@ fn pass1_only(segments: Vec<Segment>, common: &CommonContext) -> Result<BuildRes
 
 
 // ------------------------------------------------------------------------------------------
-// S1 — code segment at word address `start` (0..=2; 0 = no .org):
+// S1 — code segment at word address `start` (concrete per harness; 0 = no .org):
 //     <instruction of 1 or 2 words> ; l: ; .dw l ; .dw pc
 // which: 0 nop, 1 jmp k, 2 lds r,k (two words; one word on a reduced core), 3 sts k,r
 // Expected image: `start` zero words, the reference words, the word start+len, the word start+len+1.
 
-pub fn layout_instr<S: Src>(s: &mut S, which: u8, avr8l: bool) {
+pub fn layout_instr<S: Src>(s: &mut S, which: u8, avr8l: bool, start: u32) {
     s.role(H_C02_STEP, which as u32);
-    let start = s.below(3) as u32;
     let r = s.below(32);
     let kk = s.u16();
     if avr8l {
@@ -257,12 +259,11 @@ fn instr_go<S: Src>(
 }
 
 // ------------------------------------------------------------------------------------------
-// S2 — `.db` of n = 1..=3 byte constants in flash at word address `start` (0..=1), then
+// S2 — `.db` of n = 1..=3 byte constants in flash at word address `start` (concrete per harness), then
 // `l: .dw l`.  Odd byte counts are padded with one zero byte; l = start + ceil(n/2).
 
-pub fn layout_db<S: Src>(s: &mut S, n: usize) {
+pub fn layout_db<S: Src>(s: &mut S, n: usize, start: u32) {
     s.role(H_C02_STEP, 10 + n as u32);
-    let start = s.below(2) as u32;
     let b = [s.u8(), s.u8(), s.u8()];
     let kb = |i: usize| k(b[i] as i64);
     match n {
@@ -399,16 +400,14 @@ pub fn eeprom_blocks<S: Src>(s: &mut S, org5: bool) {
 }
 
 // ------------------------------------------------------------------------------------------
-// S4 — reservations: eeprom `.db a ; .byte n ; .db b` (n = 0..=3) and data segment
+// S4 — reservations (n, m concrete per harness): eeprom `.db a ; .byte n ; .db b` and data segment
 // `.byte m ; l:` at address `dorg` (0 = RAM start, or RAM start + 4); code `.dw l`.
 // Expected: eeprom = a, n zeros, b; l = data start + m; ram_filling = extent of the data segment.
 
-pub fn reservations<S: Src>(s: &mut S, with_org: bool) {
+pub fn reservations<S: Src>(s: &mut S, with_org: bool, n: i64, m: i64) {
     s.role(H_C02_STEP, 30 + with_org as u32);
     let a = s.u8();
     let b = s.u8();
-    let n = s.below(4) as i64;
-    let m = s.below(4) as i64;
     let common = CommonContext::new();
     let ram_start = 0x60u32; // default device
     let dorg: u32 = if with_org { ram_start + 4 } else { 0 };
@@ -878,6 +877,445 @@ pub fn set_conflict<S: Src>(s: &mut S) {
     }
     chk!(s, same, "C02: pass 1 hands pass 2 something else than the output-producing items at their resolved addresses");
     chk!(s, res.is_err(), "C10: a .set of a name that is already a label was accepted");
+    core::mem::forget(res);
+    core::mem::forget(common);
+}
+
+// ==========================================================================================
+// Small scenarios (at most three items): the larger ones above build formulas of 9-15 million
+// variables and run out of the address-space cap; these are the ones registered in the tiers.
+
+/// generic tail: one code segment `items` -> `eitems`, expected `want` words (None = don't care)
+fn one_seg<S: Src>(
+    s: &mut S,
+    common: &CommonContext,
+    start: u32,
+    items: Vec<It>,
+    eitems: Vec<It>,
+) -> (bool, Result<BuildResultPass2, Error>) {
+    sv!(let segs: Segment = [seg(SegmentType::Code, start, items)]);
+    sv!(let esegs: Segment = [seg(SegmentType::Code, start, eitems)]);
+    let r = run_via(segs, esegs, 1, 0, common);
+    #[cfg(not(kani))]
+    note_result(s, &r.1);
+    r
+}
+
+/// T1 — `.set <a> = v ; .dw <a>` with the two occurrences in independent (symbolic) letter case
+pub fn set_use<S: Src>(s: &mut S) {
+    s.role(H_C10_PASS, 40);
+    let v = s.u16() as i64;
+    let c = [s.bool(), s.bool()];
+    let common = CommonContext::new();
+    sv!(let d: Operand = [Operand::E(Expr::Ident(nm(b'a', c[1])))]);
+    sv!(let ed: Operand = [Operand::E(Expr::Ident(nm(b'a', c[1])))]);
+    sv!(let items: It = [(cp(1), Item::Set(nm(b'a', c[0]), Expr::Const(v))), (cp(2), Item::Data(DataDefine::Dw, d))]);
+    sv!(let eitems: It = [(cp(1), Item::Set(nm(b'a', c[0]), Expr::Const(v))), (cp(2), Item::Data(DataDefine::Dw, ed))]);
+    #[cfg(not(kani))]
+    s.note_s("program", &format!(".set {} = {} / .dw {}", nm(b'a', c[0]), v, nm(b'a', c[1])));
+    let (same, res) = one_seg(s, &common, 0, items, eitems);
+    cov!(res.is_ok(), "!program assembled");
+    cov!(res.is_ok() && c[0] != c[1], "definition and use differ in letter case");
+    chk!(s, same, "C02: pass 1 hands pass 2 something else than the output-producing items at their resolved addresses");
+    chk!(s, res.is_ok(), "C10: a reference to a .set variable failed to resolve (names differ only in letter case)");
+    if let Ok(r) = &res {
+        chk!(s, r.code.len() == 2 && word_at(&r.code, 0) == Some(v as u16), "C10: .set value not visible to the next reference");
+    }
+    core::mem::forget(res);
+    core::mem::forget(common);
+}
+
+/// T2 — `.set a = v1 ; .set <a> = v2 ; .dw a`: the latest preceding assignment wins, whatever its letter case
+pub fn set_twice<S: Src>(s: &mut S) {
+    s.role(H_C10_PASS, 41);
+    let v1 = s.u16() as i64;
+    let v2 = s.u16() as i64;
+    let c = s.bool();
+    let common = CommonContext::new();
+    sv!(let d: Operand = [id("a")]);
+    sv!(let ed: Operand = [id("a")]);
+    sv!(let items: It = [
+        (cp(1), Item::Set(String::from("a"), Expr::Const(v1))),
+        (cp(2), Item::Set(nm(b'a', c), Expr::Const(v2))),
+        (cp(3), Item::Data(DataDefine::Dw, d)),
+    ]);
+    sv!(let eitems: It = [
+        (cp(1), Item::Set(String::from("a"), Expr::Const(v1))),
+        (cp(2), Item::Set(nm(b'a', c), Expr::Const(v2))),
+        (cp(3), Item::Data(DataDefine::Dw, ed)),
+    ]);
+    #[cfg(not(kani))]
+    s.note_s("program", &format!(".set a = {} / .set {} = {} / .dw a", v1, nm(b'a', c), v2));
+    let (same, res) = one_seg(s, &common, 0, items, eitems);
+    cov!(res.is_ok(), "!program assembled");
+    chk!(s, same, "C02: pass 1 hands pass 2 something else than the output-producing items at their resolved addresses");
+    chk!(s, res.is_ok(), "C10: re-assigning a .set variable failed to build");
+    if let Ok(r) = &res {
+        chk!(s, r.code.len() == 2 && word_at(&r.code, 0) == Some(v2 as u16), "C10: reference does not see the latest preceding .set");
+    }
+    core::mem::forget(res);
+    core::mem::forget(common);
+}
+
+/// T3 — `.def <t> = r17` followed by (case 0) `com <t>`, (case 1) `.undef <t>`,
+/// (case 2, lower case only) `.undef t ; com t`
+pub fn def_small<S: Src>(s: &mut S, case: u8) {
+    s.role(H_C10_PASS, 50 + case as u32);
+    let c = [s.bool(), s.bool()];
+    let common = CommonContext::new();
+    let r17 = || Expr::Ident(String::from("r17"));
+    let t = |i: usize| nm(b't', c[i]);
+    sv!(let a1: InstructionOps = [InstructionOps::E(Expr::Ident(t(1)))]);
+    sv!(let b1: InstructionOps = [InstructionOps::E(Expr::Ident(t(1)))]);
+    #[cfg(not(kani))]
+    s.note_s("names", &format!("case {}: .def {} = r17 / then {}", case, t(0), t(1)));
+    let (same, res) = match case {
+        0 => {
+            sv!(let items: It = [(cp(1), Item::Def(t(0), r17())), (cp(2), Item::Instruction(Operation::Com, a1))]);
+            sv!(let eitems: It = [(cp(1), Item::Def(t(0), r17())), (cp(2), Item::Instruction(Operation::Com, b1))]);
+            one_seg(s, &common, 0, items, eitems)
+        }
+        1 => {
+            core::mem::forget(a1);
+            core::mem::forget(b1);
+            sv!(let items: It = [(cp(1), Item::Def(t(0), r17())), (cp(2), Item::Undef(t(1)))]);
+            sv!(let eitems: It = [(cp(1), Item::Def(t(0), r17())), (cp(2), Item::Undef(t(1)))]);
+            one_seg(s, &common, 0, items, eitems)
+        }
+        _ => {
+            s.assume(!c[0] && !c[1]);
+            sv!(let items: It = [(cp(1), Item::Def(t(0), r17())), (cp(2), Item::Undef(t(0))), (cp(3), Item::Instruction(Operation::Com, a1))]);
+            sv!(let eitems: It = [(cp(1), Item::Def(t(0), r17())), (cp(2), Item::Undef(t(0))), (cp(3), Item::Instruction(Operation::Com, b1))]);
+            one_seg(s, &common, 0, items, eitems)
+        }
+    };
+    chk!(s, same, "C02: pass 1 hands pass 2 something else than the output-producing items at their resolved addresses");
+    match case {
+        0 => {
+            cov!(res.is_ok(), "!alias assembled");
+            chk!(s, res.is_ok(), "C10: an instruction using a .def alias failed to build (names differ only in letter case)");
+            if let Ok(b) = &res {
+                chk!(s, b.code.len() == 2 && word_at(&b.code, 0) == Some(0x9400 | (17u16 << 4)), "C10: instruction using an alias differs from the one using the register");
+            }
+        }
+        1 => {
+            cov!(res.is_ok(), "!alias undefined");
+            chk!(s, res.is_ok(), "C10: .undef of a defined alias failed to build (names differ only in letter case)");
+        }
+        _ => {
+            cov!(res.is_err(), "!use after .undef rejected");
+            chk!(s, res.is_err(), "C10: an alias used after .undef still assembled");
+        }
+    }
+    core::mem::forget(res);
+    core::mem::forget(common);
+}
+
+/// T4 — `<instruction> ; l: ; .dw l` at word address `start`: the label is the position of the next item
+/// which: 0 nop, 1 jmp k, 2 lds r,k, 3 sts k,r (the last two one word long on a reduced core)
+pub fn instr_label<S: Src>(s: &mut S, which: u8, avr8l: bool, start: u32) {
+    s.role(H_C02_STEP, 60 + which as u32);
+    let r = s.below(32);
+    let kk = s.u16();
+    if avr8l {
+        s.assume(r >= 16 && kk >= 0x40 && kk <= 0xbf);
+    }
+    let common = CommonContext::new();
+    if avr8l {
+        common.device.replace(Some(crate::ctx::device(true)));
+    }
+    let ke = || InstructionOps::E(Expr::Const(kk as i64));
+    let re = || InstructionOps::R8(crate::ctx::reg(r));
+    let (a, n): ([A; 3], usize) = match which {
+        0 => ([A::K(0), A::K(0), A::K(0)], 0),
+        1 => ([A::K(kk as i64), A::K(0), A::K(0)], 1),
+        2 => ([A::R(r), A::K(kk as i64), A::K(0)], 2),
+        _ => ([A::K(kk as i64), A::R(r), A::K(0)], 2),
+    };
+    let mkop = |w: u8| match w {
+        0 => Operation::Nop,
+        1 => Operation::Jmp,
+        2 => Operation::Lds,
+        _ => Operation::Sts,
+    };
+    let expect = ref_encode(&mkop(which), &a[..n], start, avr8l);
+    sv!(let d1: Operand = [id("l")]);
+    sv!(let e1: Operand = [id("l")]);
+    let (same, res) = match which {
+        0 => {
+            sv!(let x: InstructionOps = []);
+            sv!(let y: InstructionOps = []);
+            sv!(let items: It = [(cp(1), Item::Instruction(Operation::Nop, x)), (cp(2), label("l")), (cp(3), Item::Data(DataDefine::Dw, d1))]);
+            sv!(let eitems: It = [(cp(1), Item::Instruction(Operation::Nop, y)), (cp(3), Item::Data(DataDefine::Dw, e1))]);
+            one_seg(s, &common, start, items, eitems)
+        }
+        1 => {
+            sv!(let x: InstructionOps = [ke()]);
+            sv!(let y: InstructionOps = [ke()]);
+            sv!(let items: It = [(cp(1), Item::Instruction(Operation::Jmp, x)), (cp(2), label("l")), (cp(3), Item::Data(DataDefine::Dw, d1))]);
+            sv!(let eitems: It = [(cp(1), Item::Instruction(Operation::Jmp, y)), (cp(3), Item::Data(DataDefine::Dw, e1))]);
+            one_seg(s, &common, start, items, eitems)
+        }
+        2 => {
+            sv!(let x: InstructionOps = [re(), ke()]);
+            sv!(let y: InstructionOps = [re(), ke()]);
+            sv!(let items: It = [(cp(1), Item::Instruction(Operation::Lds, x)), (cp(2), label("l")), (cp(3), Item::Data(DataDefine::Dw, d1))]);
+            sv!(let eitems: It = [(cp(1), Item::Instruction(Operation::Lds, y)), (cp(3), Item::Data(DataDefine::Dw, e1))]);
+            one_seg(s, &common, start, items, eitems)
+        }
+        _ => {
+            sv!(let x: InstructionOps = [ke(), re()]);
+            sv!(let y: InstructionOps = [ke(), re()]);
+            sv!(let items: It = [(cp(1), Item::Instruction(Operation::Sts, x)), (cp(2), label("l")), (cp(3), Item::Data(DataDefine::Dw, d1))]);
+            sv!(let eitems: It = [(cp(1), Item::Instruction(Operation::Sts, y)), (cp(3), Item::Data(DataDefine::Dw, e1))]);
+            one_seg(s, &common, start, items, eitems)
+        }
+    };
+    cov!(res.is_ok(), "!segment assembled");
+    #[cfg(not(kani))]
+    {
+        s.note("start", start as i64);
+        s.note_s("instruction", &format!("{:?} {:?}", mkop(which), &a[..n]));
+        s.note_s("reference", &format!("{:x?}", expect));
+    }
+    chk!(s, same, "C02: pass 1 hands pass 2 something else than the output-producing items at their resolved addresses");
+    chk!(s, res.is_ok() && expect.is_some(), "C02: a valid one-instruction segment failed to build");
+    if let (Ok(b), Some(e)) = (&res, &expect) {
+        let len: usize = if e.w1.is_some() { 2 } else { 1 };
+        let st = start as usize;
+        chk!(s, b.code.len() == 2 * (st + len + 1), "C02: image length differs from .org gap + instruction + data");
+        let mut gap_zero = true;
+        if st > 0 && word_at(&b.code, 0) != Some(0) {
+            gap_zero = false;
+        }
+        if st > 1 && word_at(&b.code, 1) != Some(0) {
+            gap_zero = false;
+        }
+        chk!(s, gap_zero, "C02: the .org gap is not filled with zero bytes");
+        chk!(s, word_at(&b.code, st) == Some(e.w0), "C02: instruction does not land at the .org address");
+        if let Some(w1) = e.w1 {
+            chk!(s, word_at(&b.code, st + 1) == Some(w1), "C02: second instruction word misplaced");
+        }
+        chk!(s, word_at(&b.code, st + len) == Some((st + len) as u16), "C02: label value differs from the position where the next item was emitted");
+    }
+    core::mem::forget(res);
+    core::mem::forget(common);
+}
+
+/// T5 — `pc` is the address of the item being emitted: (which 0) `.dw pc` alone, (1) `.db a, b ; .dw pc`,
+/// (2) `jmp k ; .dw pc`, at word address `start`
+pub fn pc_value<S: Src>(s: &mut S, which: u8, start: u32) {
+    s.role(H_C02_STEP, 70 + which as u32);
+    let b = [s.u8(), s.u8()];
+    let kk = s.u16();
+    let common = CommonContext::new();
+    sv!(let d: Operand = [id("pc")]);
+    sv!(let ed: Operand = [id("pc")]);
+    let (same, res, before): (bool, Result<BuildResultPass2, Error>, usize) = match which {
+        0 => {
+            sv!(let items: It = [(cp(1), Item::Data(DataDefine::Dw, d))]);
+            sv!(let eitems: It = [(cp(1), Item::Data(DataDefine::Dw, ed))]);
+            let (a, r) = one_seg(s, &common, start, items, eitems);
+            (a, r, 0)
+        }
+        1 => {
+            sv!(let o: Operand = [k(b[0] as i64), k(b[1] as i64)]);
+            sv!(let eo: Operand = [k(b[0] as i64), k(b[1] as i64)]);
+            sv!(let items: It = [(cp(1), Item::Data(DataDefine::Db, o)), (cp(2), Item::Data(DataDefine::Dw, d))]);
+            sv!(let eitems: It = [(cp(1), Item::Data(DataDefine::Db, eo)), (cp(2), Item::Data(DataDefine::Dw, ed))]);
+            let (a, r) = one_seg(s, &common, start, items, eitems);
+            (a, r, 1)
+        }
+        _ => {
+            sv!(let x: InstructionOps = [InstructionOps::E(Expr::Const(kk as i64))]);
+            sv!(let y: InstructionOps = [InstructionOps::E(Expr::Const(kk as i64))]);
+            sv!(let items: It = [(cp(1), Item::Instruction(Operation::Jmp, x)), (cp(2), Item::Data(DataDefine::Dw, d))]);
+            sv!(let eitems: It = [(cp(1), Item::Instruction(Operation::Jmp, y)), (cp(2), Item::Data(DataDefine::Dw, ed))]);
+            let (a, r) = one_seg(s, &common, start, items, eitems);
+            (a, r, 2)
+        }
+    };
+    cov!(res.is_ok(), "!segment assembled");
+    chk!(s, same, "C02: pass 1 hands pass 2 something else than the output-producing items at their resolved addresses");
+    chk!(s, res.is_ok(), "C03: a segment using pc failed to build");
+    if let Ok(r) = &res {
+        let at = start as usize + before;
+        chk!(s, r.code.len() == 2 * (at + 1) && word_at(&r.code, at) == Some(at as u16), "C03: pc is not the address of the item being emitted");
+    }
+    core::mem::forget(res);
+    core::mem::forget(common);
+}
+
+/// T6 — eeprom: (which 0) `.db a` ; second block at `.org 3`: `.db b`  -> a 0 0 b
+///              (which 1) `.db a, b, c ; l:` ; code `.dw l`         -> odd length unpadded, l = 3
+///              (which 2) `.db a ; .byte n ; .db b` (n concrete)     -> a, n zeros, b
+pub fn eeprom_small<S: Src>(s: &mut S, which: u8, n: i64) {
+    s.role(H_C02_STEP, 80 + which as u32);
+    let b = [s.u8(), s.u8(), s.u8()];
+    let common = CommonContext::new();
+    let kb = |i: usize| k(b[i] as i64);
+    let (same, res) = match which {
+        0 => {
+            sv!(let o1: Operand = [kb(0)]);
+            sv!(let o2: Operand = [kb(1)]);
+            sv!(let p1: Operand = [kb(0)]);
+            sv!(let p2: Operand = [kb(1)]);
+            sv!(let i1: It = [(cp(1), Item::Data(DataDefine::Db, o1))]);
+            sv!(let i2: It = [(cp(2), Item::Data(DataDefine::Db, o2))]);
+            sv!(let e1: It = [(cp(1), Item::Data(DataDefine::Db, p1))]);
+            sv!(let e2: It = [(cp(2), Item::Data(DataDefine::Db, p2))]);
+            sv!(let segs: Segment = [seg(SegmentType::Eeprom, 0, i1), seg(SegmentType::Eeprom, 3, i2)]);
+            sv!(let esegs: Segment = [seg(SegmentType::Eeprom, 0, e1), seg(SegmentType::Eeprom, 3, e2)]);
+            run_via(segs, esegs, 2, 0, &common)
+        }
+        1 => {
+            sv!(let o1: Operand = [kb(0), kb(1), kb(2)]);
+            sv!(let p1: Operand = [kb(0), kb(1), kb(2)]);
+            sv!(let o2: Operand = [id("l")]);
+            sv!(let p2: Operand = [id("l")]);
+            sv!(let i1: It = [(cp(1), Item::Data(DataDefine::Db, o1)), (cp(2), label("l"))]);
+            sv!(let i2: It = [(cp(3), Item::Data(DataDefine::Dw, o2))]);
+            sv!(let e1: It = [(cp(1), Item::Data(DataDefine::Db, p1))]);
+            sv!(let e2: It = [(cp(3), Item::Data(DataDefine::Dw, p2))]);
+            sv!(let segs: Segment = [seg(SegmentType::Eeprom, 0, i1), seg(SegmentType::Code, 0, i2)]);
+            sv!(let esegs: Segment = [seg(SegmentType::Eeprom, 0, e1), seg(SegmentType::Code, 0, e2)]);
+            run_via(segs, esegs, 2, 0, &common)
+        }
+        _ => {
+            sv!(let o1: Operand = [kb(0)]);
+            sv!(let o2: Operand = [kb(1)]);
+            sv!(let p1: Operand = [kb(0)]);
+            sv!(let p2: Operand = [kb(1)]);
+            sv!(let i1: It = [(cp(1), Item::Data(DataDefine::Db, o1)), (cp(2), Item::ReserveData(n)), (cp(3), Item::Data(DataDefine::Db, o2))]);
+            sv!(let e1: It = [(cp(1), Item::Data(DataDefine::Db, p1)), (cp(2), Item::ReserveData(n)), (cp(3), Item::Data(DataDefine::Db, p2))]);
+            sv!(let segs: Segment = [seg(SegmentType::Eeprom, 0, i1)]);
+            sv!(let esegs: Segment = [seg(SegmentType::Eeprom, 0, e1)]);
+            run_via(segs, esegs, 1, 0, &common)
+        }
+    };
+    #[cfg(not(kani))]
+    {
+        s.note("which", which as i64);
+        note_result(s, &res);
+    }
+    cov!(res.is_ok(), "!program assembled");
+    chk!(s, same, "C02: pass 1 hands pass 2 something else than the output-producing items at their resolved addresses");
+    chk!(s, res.is_ok(), "C06: a valid eeprom program failed to build");
+    if let Ok(r) = &res {
+        match which {
+            0 => {
+                chk!(s, r.eeprom.len() == 4, "C02: eeprom image length differs from data + .org gap");
+                chk!(s, byte_at(&r.eeprom, 0) == Some(b[0]) && byte_at(&r.eeprom, 3) == Some(b[1]), "C02: eeprom block does not land at its .org address");
+                chk!(s, byte_at(&r.eeprom, 1) == Some(0) && byte_at(&r.eeprom, 2) == Some(0), "C02: eeprom .org gap not zero filled");
+            }
+            1 => {
+                chk!(s, r.eeprom.len() == 3, "C06: odd-length .db in eeprom must not be padded");
+                chk!(s, byte_at(&r.eeprom, 0) == Some(b[0]) && byte_at(&r.eeprom, 1) == Some(b[1]) && byte_at(&r.eeprom, 2) == Some(b[2]), "C06: eeprom .db bytes not in source order");
+                chk!(s, r.code.len() == 2 && word_at(&r.code, 0) == Some(3), "C02: eeprom label differs from the byte offset of the next item");
+            }
+            _ => {
+                let n = n as usize;
+                chk!(s, r.eeprom.len() == n + 2, "C06: .byte n in eeprom does not contribute n bytes");
+                chk!(s, byte_at(&r.eeprom, 0) == Some(b[0]) && byte_at(&r.eeprom, n + 1) == Some(b[1]), "C06: data around an eeprom reservation misplaced");
+                let mut zeros = true;
+                let mut i = 0;
+                while i < n {
+                    if byte_at(&r.eeprom, 1 + i) != Some(0) {
+                        zeros = false;
+                    }
+                    i += 1;
+                }
+                chk!(s, zeros, "C06: eeprom reservation is not zero bytes");
+            }
+        }
+    }
+    core::mem::forget(res);
+    core::mem::forget(common);
+}
+
+/// T7 — data segment extent: `.dseg [.org RAM start + off]: .byte m ; l:` ; code `.dw l`
+/// l = data start + m, ram_filling = off + m   (off, m concrete per harness)
+pub fn ram_extent<S: Src>(s: &mut S, off: u32, m: i64) {
+    s.role(H_C02_STEP, 90);
+    let common = CommonContext::new();
+    let ram_start = 0x60u32;
+    let dorg = if off == 0 { 0 } else { ram_start + off };
+    let fill = off + m as u32;
+    sv!(let o: Operand = [id("l")]);
+    sv!(let p: Operand = [id("l")]);
+    sv!(let i1: It = [(cp(1), Item::ReserveData(m)), (cp(2), label("l"))]);
+    sv!(let i2: It = [(cp(3), Item::Data(DataDefine::Dw, o))]);
+    sv!(let e1: It = []);
+    sv!(let e2: It = [(cp(3), Item::Data(DataDefine::Dw, p))]);
+    sv!(let segs: Segment = [seg(SegmentType::Data, dorg, i1), seg(SegmentType::Code, 0, i2)]);
+    sv!(let esegs: Segment = [seg(SegmentType::Data, ram_start + off, e1), seg(SegmentType::Code, 0, e2)]);
+    let (same, res) = run_via(segs, esegs, 2, fill, &common);
+    #[cfg(not(kani))]
+    note_result(s, &res);
+    cov!(res.is_ok(), "!program assembled");
+    chk!(s, same, "C12/C02: pass 1 result differs from the reference layout (data segment address, RAM usage = extent of the data segment)");
+    chk!(s, res.is_ok(), "C06: a reservation in the data segment failed to build");
+    if let Ok(r) = &res {
+        chk!(s, word_at(&r.code, 0) == Some((ram_start + fill) as u16), "C02: data-segment label differs from RAM start + offset");
+        chk!(s, r.ram_filling == fill, "C12: RAM usage is not the extent of the data segment");
+    }
+    core::mem::forget(res);
+    core::mem::forget(common);
+}
+
+/// T8 — running offsets across interleaved segments: cseg `nop` | dseg `.byte 2` | cseg `l: .dw l`
+/// -> code = nop, 1 ; ram_filling = 2
+pub fn offsets_small<S: Src>(s: &mut S) {
+    s.role(H_C02_STEP, 95);
+    let common = CommonContext::new();
+    sv!(let n0: InstructionOps = []);
+    sv!(let m0: InstructionOps = []);
+    sv!(let o: Operand = [id("l")]);
+    sv!(let p: Operand = [id("l")]);
+    sv!(let i1: It = [(cp(1), Item::Instruction(Operation::Nop, n0))]);
+    sv!(let i2: It = [(cp(2), Item::ReserveData(2))]);
+    sv!(let i3: It = [(cp(3), label("l")), (cp(4), Item::Data(DataDefine::Dw, o))]);
+    sv!(let e1: It = [(cp(1), Item::Instruction(Operation::Nop, m0))]);
+    sv!(let e2: It = []);
+    sv!(let e3: It = [(cp(4), Item::Data(DataDefine::Dw, p))]);
+    sv!(let segs: Segment = [seg(SegmentType::Code, 0, i1), seg(SegmentType::Data, 0, i2), seg(SegmentType::Code, 0, i3)]);
+    sv!(let esegs: Segment = [seg(SegmentType::Code, 0, e1), seg(SegmentType::Data, 0x60, e2), seg(SegmentType::Code, 1, e3)]);
+    let (same, res) = run_via(segs, esegs, 3, 2, &common);
+    #[cfg(not(kani))]
+    note_result(s, &res);
+    cov!(res.is_ok(), "!program assembled");
+    chk!(s, same, "C02/C12: pass 1 result differs from the reference layout (running offsets per segment kind, RAM usage)");
+    chk!(s, res.is_ok(), "C02: interleaved segments failed to build");
+    if let Ok(r) = &res {
+        chk!(s, r.code.len() == 4 && word_at(&r.code, 0) == Some(0) && word_at(&r.code, 1) == Some(1), "C02: label in a continued code segment differs from its position");
+        chk!(s, r.ram_filling == 2, "C12: RAM usage is not the extent of the data segment");
+    }
+    core::mem::forget(res);
+    core::mem::forget(common);
+}
+
+/// T9 — `.set` inside a data segment block: dseg `.set n = v ; .byte 1` ; cseg `.dw n`  ->  v
+pub fn set_dseg_small<S: Src>(s: &mut S) {
+    s.role(H_C10_PASS, 45);
+    let v = s.u16() as i64;
+    let common = CommonContext::new();
+    sv!(let o: Operand = [id("n")]);
+    sv!(let p: Operand = [id("n")]);
+    sv!(let i1: It = [(cp(1), Item::Set(String::from("n"), Expr::Const(v))), (cp(2), Item::ReserveData(1))]);
+    sv!(let i2: It = [(cp(3), Item::Data(DataDefine::Dw, o))]);
+    sv!(let e1: It = [(cp(1), Item::Set(String::from("n"), Expr::Const(v)))]);
+    sv!(let e2: It = [(cp(3), Item::Data(DataDefine::Dw, p))]);
+    sv!(let segs: Segment = [seg(SegmentType::Data, 0, i1), seg(SegmentType::Code, 0, i2)]);
+    sv!(let esegs: Segment = [seg(SegmentType::Data, 0x60, e1), seg(SegmentType::Code, 0, e2)]);
+    let (same, res) = run_via(segs, esegs, 2, 1, &common);
+    #[cfg(not(kani))]
+    note_result(s, &res);
+    cov!(res.is_ok(), "!program assembled");
+    chk!(s, same, "C02: pass 1 hands pass 2 something else than the output-producing items at their resolved addresses");
+    chk!(s, res.is_ok(), "C10: .set inside a .dseg block failed to build");
+    if let Ok(r) = &res {
+        chk!(s, r.code.len() == 2 && word_at(&r.code, 0) == Some(v as u16), "C10: a .set written inside a .dseg block was not applied");
+    }
     core::mem::forget(res);
     core::mem::forget(common);
 }
